@@ -19,6 +19,7 @@ import (
 	"os/exec"
 	"sort"
 	"sync"
+	"sync/atomic"
 	"time"
 )
 
@@ -307,6 +308,44 @@ func parallelRerun(s *Suite, ctx *Ctx, resps []map[string]any, seq []string, res
 		}(g)
 	}
 	wg.Wait()
+	// hot phase: every goroutine hammers the same few cases - those with the longest sequential results, i.e. the calls
+	// that got furthest into the code (a successful recovery, a full encoding) rather than failing at the first check -
+	// for a fixed time, so that two calls are inside the same function at the same moment thousands of times over
+	hot := append([]int{}, idx...)
+	sort.SliceStable(hot, func(a, b int) bool { return len(seq[hot[a]]) > len(seq[hot[b]]) })
+	if len(hot) > 48 {
+		hot = hot[:48]
+	}
+	budget := 2 * time.Second
+	if ctx.Tier == "thorough" {
+		budget = 10 * time.Second
+	}
+	deadline := time.Now().Add(budget)
+	var hotCalls int64
+	for g := 0; g < G; g++ {
+		wg.Add(1)
+		go func(g int) {
+			defer wg.Done()
+			for n := 0; time.Now().Before(deadline); n++ {
+				i := hot[(g*5+n)%len(hot)]
+				impl := runImplO(s, ctx.reqs[i], resps[i])
+				k := impl
+				if s.ParKey != nil && impl != "panic" {
+					k = s.ParKey(impl)
+				}
+				atomic.AddInt64(&hotCalls, 1)
+				if c := canon(k); c != seq[i] {
+					mu.Lock()
+					if len(diffs) < 50 {
+						diffs = append(diffs, diff{i, c})
+					}
+					mu.Unlock()
+				}
+			}
+		}(g)
+	}
+	wg.Wait()
+	ctx.Notes["parallel_hot_calls"] = hotCalls
 	ctx.Notes["parallel_rerun_cases"] = len(idx)
 	ctx.Notes["parallel_rerun_goroutines"] = G
 	for _, d := range diffs {
